@@ -83,6 +83,7 @@ def finish(prop, level, tier, seed, t0, *, evaluations, nontrivial, violations, 
     reason = None
     if missing: reason = "no evaluations of deciding monitor " + ",".join(missing)
     elif missing_cls: reason = "required class never observed: " + ",".join(missing_cls)
+    elif any("oracle_error" in k and n for k, n in stats.items()): reason = "an oracle raised: " + ",".join(k for k in stats if "oracle_error" in k)[:300]
     elif len(nontrivial) < min_nontrivial: reason = f"only {len(nontrivial)} non-trivial cases (floor {min_nontrivial})"
     verdict = "violated" if new else ("inconclusive" if reason else "held")
     fired = sorted(k[6:] for k in stats if k.startswith("fired:"))
